@@ -31,6 +31,7 @@ const (
 	ekList
 	ekArrow
 	ekAssign
+	ekRaw
 )
 
 type c21Expr struct {
@@ -41,6 +42,8 @@ type c21Expr struct {
 	name  string // arrow type / field name
 	plus  bool
 	apnd  bool // += instead of =
+	sep   int  // list separator terminal (0 = none); only the c21.infer generator sets it
+	raw   string // ekRaw: literal grammar text without fields (code block, state marker, set)
 }
 
 type c21Nt struct {
@@ -66,6 +69,7 @@ type c21gen struct {
 	g        *c21Gram
 	nt       int
 	nextTerm int
+	wild     bool // c21.infer only: recursive references, separators, code blocks, state markers, sets, %prec-free extras
 }
 
 func (c *c21gen) newType() string {
@@ -106,6 +110,25 @@ func (c *c21gen) node(depth int) *c21Expr {
 }
 
 func (c *c21gen) primary(depth int) *c21Expr {
+	if c.wild {
+		switch y := c.rng.Intn(100); {
+		case y < 14:
+			// a reference to this or an earlier nonterminal: recursion (the cycle rule of nontermPhrase); plain
+			// nonterminals are preferred, their references are not cut by an arrow (mutual recursion)
+			var plain []int
+			for j := 0; j <= c.nt; j++ {
+				if c.g.nts[j].kind == 0 {
+					plain = append(plain, j)
+				}
+			}
+			if len(plain) > 0 && c.rng.Intn(3) != 0 {
+				return &c21Expr{kind: ekNt, nt: plain[c.rng.Intn(len(plain))]}
+			}
+			return &c21Expr{kind: ekNt, nt: c.rng.Intn(c.nt + 1)}
+		case y < 18:
+			return &c21Expr{kind: ekRaw, raw: []string{"{ act() }", ".mark", "set(ta | tb)"}[c.rng.Intn(3)]}
+		}
+	}
 	x := c.rng.Intn(100)
 	switch {
 	case x < 25:
@@ -128,7 +151,11 @@ func (c *c21gen) primary(depth int) *c21Expr {
 		} else {
 			el = &c21Expr{kind: ekGroup, sub: []*c21Expr{c.seq(depth+1, 1+c.rng.Intn(2))}}
 		}
-		return &c21Expr{kind: ekList, plus: c.rng.Intn(2) == 0, sub: []*c21Expr{el}}
+		l := &c21Expr{kind: ekList, plus: c.rng.Intn(2) == 0, sub: []*c21Expr{el}}
+		if c.wild && c.rng.Intn(3) == 0 {
+			l.sep = 1 + c.rng.Intn(c.g.nterms-1)
+		}
+		return l
 	}
 }
 
@@ -165,7 +192,9 @@ func (c *c21gen) seq(depth, n int) *c21Expr {
 	return p
 }
 
-func genC21Gram(rng *rand.Rand) *c21Gram {
+func genC21Gram(rng *rand.Rand) *c21Gram { return genC21GramOpt(rng, false) }
+
+func genC21GramOpt(rng *rand.Rand, wild bool) *c21Gram {
 	g := &c21Gram{nterms: 4 + rng.Intn(4)}
 	if rng.Intn(3) != 0 {
 		g.inject = 1 + rng.Intn(g.nterms-1)
@@ -186,7 +215,7 @@ func genC21Gram(rng *rand.Rand) *c21Gram {
 		}
 		g.nts = append(g.nts, nt)
 	}
-	c := &c21gen{rng: rng, g: g}
+	c := &c21gen{rng: rng, g: g, wild: wild}
 	for i, nt := range g.nts {
 		c.nt = i
 		switch nt.kind {
@@ -247,7 +276,12 @@ func (g *c21Gram) text(e *c21Expr, top bool) string {
 		if e.plus {
 			q = "+"
 		}
+		if e.sep > 0 {
+			return "(" + g.text(e.sub[0], false) + " separator " + g.termName(e.sep) + ")" + q
+		}
 		return g.text(e.sub[0], false) + q
+	case ekRaw:
+		return e.raw
 	case ekArrow:
 		if top {
 			return g.text(e.sub[0], false) + " -> " + e.name
@@ -487,8 +521,8 @@ func c21Driver(p *genPkg) string {
 
 // typesStr: ((fields per range type) (categories) injected-type-id)
 //   field = ((expanded selector ids) fetchAfter required list assert) ; assert: 0 struct wrap, 1+k category k, -1 base interface
-//   category = ((type ids) nil-implements)
-func c21TypesStr(t *syntax.Types, injName string) string {
+//   category = ((type ids) nil-implements) ; NilNode implements every category but the synthetic TokenSet
+func c21TypesStr(t *syntax.Types, injName string, declared []string) string {
 	ids := c21TypeIDs(t)
 	rts := make([]string, len(t.RangeTypes))
 	for i, rt := range t.RangeTypes {
@@ -509,7 +543,14 @@ func c21TypesStr(t *syntax.Types, injName string) string {
 	}
 	cs := make([]string, len(t.Categories))
 	for i, c := range t.Categories {
-		cs[i] = sx.List(sx.Ints(c21Expand(t, []string{c.Name})), sx.Bool(c.Name != "TokenSet"))
+		// NilNode implements every category except the synthetic TokenSet (the one the grammar did not declare)
+		nilImplements := c.Name != "TokenSet"
+		for _, d := range declared {
+			if d == c.Name {
+				nilImplements = true
+			}
+		}
+		cs[i] = sx.List(sx.Ints(c21Expand(t, []string{c.Name})), sx.Bool(nilImplements))
 	}
 	return sx.List(sx.List(rts...), sx.List(cs...), sx.Int(ids[injName]))
 }
@@ -694,7 +735,7 @@ func c21Random(rng *rand.Rand, n int, args []string) {
 			ones[j] = 1
 		}
 		// textmapper accepted the grammar: it claims the inferred fields fit every tree
-		sx.Case("c21.types", sx.List(c21TypesStr(t, grams[i].injName), grams[i].bodiesStr(t)), sx.Ints(ones))
+		sx.Case("c21.types", sx.List(c21TypesStr(t, grams[i].injName, grams[i].cats), grams[i].bodiesStr(t)), sx.Ints(ones))
 	}
 	for i, pd := range pend {
 		if answers[i] == "nobuild" {
@@ -710,7 +751,7 @@ func c21Random(rng *rand.Rand, n int, args []string) {
 			noRoot++
 			continue
 		}
-		sx.Case("c21.run", sx.List(c21TypesStr(p.g.Parser.Types, grams[pd.pkg].injName), sx.Str(pd.text)), answers[i])
+		sx.Case("c21.run", sx.List(c21TypesStr(p.g.Parser.Types, grams[pd.pkg].injName, grams[pd.pkg].cats), sx.Str(pd.text)), answers[i])
 	}
 	sx.Stat("grammars_tried", tried)
 	sx.Stat("grammars_rejected", rejected)
